@@ -25,6 +25,16 @@ class Ctx:
         self.inline_depth = 4 if tier == 'thorough' else 2
         self._idx = None
         self._grammar = None
+        self._sub = {}
+
+    def sub(self, modname: str, prop: str):
+        """Obligations of another property's rule module (shared rules), computed once per run."""
+        if modname not in self._sub:
+            mod = importlib.import_module(f'sa.rules.{modname}')
+            c = Collector(prop)
+            mod.run(self, c)
+            self._sub[modname] = c
+        return self._sub[modname]
 
     @property
     def idx(self) -> PyIndex:
